@@ -62,7 +62,7 @@ def selftest_records(records):
     out = []
     good = [r for r in records if r["obs"]["cdone"] and r["obs"]["sdone"] and r["down"] == 0]
     if len(good) < 4:
-        raise Machinery("selftest: fewer than 4 completed honest connections")
+        return out
     for k, r in enumerate(good[:: max(1, len(good) // 8)][:8]):
         c = copy.deepcopy(r)
         c["id"] = -(k + 1)
@@ -114,6 +114,13 @@ def run(ctx):
         raise Machinery("binding self-test: %d of %d corrupted records were accepted - the judge constrains nothing"
                         % (len(st_recs) - len(st_rej), len(st_recs)))
     rejects = [(i, f) for i, f in rejects if i < len(allrecs)]
+    if not st_recs and not rejects:
+        raise Machinery("selftest: fewer than 4 completed honest connections and nothing rejected (vacuous)")
+    cands = to_cands(allrecs, rejects)
+
+    def runner(cs):
+        return run_cases(ctx, binary, cs, "repro")
+    ctx.candidates(binary, cands, reproduce=T.BatchReproducer(ctx, "C24", cands, runner))
 
     # coverage accounting (counted, not judged)
     done = [r for r in allrecs if r["obs"]["cdone"] and r["obs"]["sdone"]]
@@ -146,12 +153,6 @@ def run(ctx):
                        "pairs that completed. Every connection (two per pair when resumption is attempted) is one judged "
                        "observation." % ("one (rotated by the seed)" if quick else "all"))
     ctx.log("C24 observations: %s" % json.dumps(cov))
-
-    cands = to_cands(allrecs, rejects)
-
-    def runner(cs):
-        return run_cases(ctx, binary, cs, "repro")
-    ctx.candidates(binary, cands, reproduce=T.BatchReproducer(ctx, "C24", cands, runner))
 
 
 def replay(ctx, path):
